@@ -333,7 +333,7 @@ def run_property(prop, tier, out, jobs=16):
     natives = None
     replays_done = 0
     max_paths = 60_000 if tier == "quick" else 400_000
-    timeout = 900 if tier == "quick" else 4 * 3600
+    timeout = 1800 if tier == "quick" else 4 * 3600
     try:
         bin_hash = hashlib.sha256(open(binary, "rb").read()).hexdigest()[:20]
         for suite, flt in suites:
